@@ -1319,6 +1319,12 @@ def _seq_step(env):
         n2, b2 = rng.choice(boxes)
         if rng.random() < 0.15:
             n2, b2 = "unit_cube(%d)" % (box.dim + 1), AABB.unit_cube(box.dim + 1)
+        if rng.random() < 0.3 and not box.is_empty():
+            # nested operands: the first box inside the second (a cell clipped against its domain), or the box with itself
+            if rng.random() < 0.5:
+                n2, b2 = "enlarged(%s)" % name, AABB(np.asarray(box.mini, float) - rng.uniform(0.0, 2.0), np.asarray(box.maxi, float) + rng.uniform(0.0, 2.0))
+            else:
+                n2, b2 = name, box
         op = rng.choice(("union", "intersection", "do_intersect", "or", "and"))
         if op == "or":
             ok, res = env.do("%s | %s" % (name, n2), "AABB.union", lambda x, y: x | y, box, b2)
@@ -1326,6 +1332,11 @@ def _seq_step(env):
             ok, res = env.do("%s & %s" % (name, n2), "AABB.intersection", lambda x, y: x & y, box, b2)
         else:
             ok, res = env.do("AABB.%s(%s, %s)" % (op, name, n2), "AABB." + op, getattr(AABB, op), box, b2)
+        if ok and op != "do_intersect":
+            # the result is a new box: handing back one of the operands would let a later pad() of the result change that operand
+            env.ctx.check(res is not box and res is not b2, "args", "AABB." + ("union" if op in ("union", "or") else "intersection"), "result_is_one_of_the_operands",
+                          "the box returned by a union / intersection is the very object of an operand (padding the result would change the operand)",
+                          operands_nested=True)
         if ok and op != "do_intersect" and rng.random() < 0.5:
             env.add_box(res)
     elif r < 0.60:                                              # ---- read-only properties
